@@ -7,6 +7,16 @@ import (
 	"strings"
 )
 
+// attributeEscaper makes a value safe inside a double quoted attribute. The
+// single quote is left alone because it is harmless there and is needed by
+// inline event handlers such as onclick="location.href='page.html'".
+var attributeEscaper = strings.NewReplacer(
+	"&", "&amp;",
+	"<", "&lt;",
+	">", "&gt;",
+	`"`, "&#34;",
+)
+
 type Tag struct {
 	tag        string
 	attributes map[string]string
@@ -33,7 +43,8 @@ func (c *Tag) WriteHTMLTo(w io.Writer) (int64, error) {
 	for _, name := range names {
 		value := c.attributes[name]
 		if value != "" {
-			attributes += fmt.Sprintf(`%s="%s" `, name, value)
+			attributes += fmt.Sprintf(`%s="%s" `, name,
+				attributeEscaper.Replace(value))
 		}
 	}
 
